@@ -125,7 +125,7 @@ def main():
         ],
         "checks": checks,
         "not_applicable": na,
-        "notes": "fix: commits in /repo (see /verif/known_findings.json): F1 detached heap push, F2 fill error strands sync peers, F3 completed() ignoring aborted, F4a two successors of one predecessor, F5 rows == terminal height, F6 data race in completed(), F9 Wait returning before late bars' listeners; open finding F4b (late successor). See DESIGN.md.",
+        "notes": "fix: commits in /repo (see /verif/known_findings.json and DESIGN.md section 8): F1 detached heap push, F2 fill error strands sync peers, F3 completed() ignoring aborted, F4a two successors of one predecessor, F5 rows == terminal height, F6 data race in completed(), F8 priority update on a popping bar, F9 Wait returning before late bars' listeners, F10 WaitGroup reuse panic when Add races with cancellation; open finding F4b (late successor, KNOWN-FINDING in C17). Sensitivity: 36 own mutants + 46 independently seeded changes, all detected (DESIGN.md section 12).",
     }
     json.dump(m, open("/verif/MANIFEST.json", "w"), indent=1)
     json.dump(rules, open("/verif/prop_rules.json", "w"), indent=1)
